@@ -42,7 +42,7 @@ func (m *M) pools() pools {
 		}
 		p.all = append(p.all, n)
 		kids := acceptedChildren(inst, n)
-		onBest := model.IsAncestorOrEqual(n, p.tip)
+		onBest := n.Height <= p.tip.Height && p.bestChain[n.Height] == n
 		if len(kids) == 0 && n != p.tip {
 			p.sideTips = append(p.sideTips, n)
 		}
@@ -104,14 +104,21 @@ func (m *M) pickParent(t *rapid.T) (*model.Node, string) {
 // domain, and with it everything the hooks' small depths would otherwise make observable that the
 // shipped constants cannot: storage-served heights are never touched by a reorganisation).
 func (m *M) reorgTooDeep(parent *model.Node, bits uint32) bool {
+	if m.f.RealDepth && !m.f.Crash {
+		return false // production constants: no hook artefacts, every reorganisation depth is in the domain
+	}
+	// (crash legs keep the precondition also at the real depth: known finding C12-deepreorg)
 	inst := m.insts[0]
 	tip := m.reported(inst)
+	lca := model.LCA(parent, tip)
+	if lca.Height < parent.Height+1-m.effDepth() {
+		return true // no branch runs more than the prune depth beyond its fork from the best chain
+	}
 	w := new(big.Int).Add(parent.Work, model.BlockWork(bits))
 	if w.Cmp(tip.Work) <= 0 {
 		return false
 	}
-	lca := model.LCA(parent, tip)
-	return lca.Height < parent.Height+1-m.effDepth() || lca.Height < tip.Height-m.effDepth()
+	return lca.Height < tip.Height-m.effDepth()
 }
 
 func (m *M) opExtend(t *rapid.T) {
@@ -121,13 +128,38 @@ func (m *M) opExtend(t *rapid.T) {
 	m.k.Op("extend from=%s run=%d bits=%08x", pool, run, bits)
 	cur := parent
 	for i := 0; i < run; i++ {
-		if m.insts[0].acc[cur] && m.reorgTooDeep(cur, bits) {
+		if m.reorgTooDeep(cur, bits) { // also for parents the model no longer counts as accepted
 			m.k.Class("precondition_reorg_too_deep")
 			return
 		}
 		raw := m.newHeader(cur.Hash, cur.Raw.Timestamp, bits)
 		n := m.tree.AddChild(raw)
 		m.submit(raw, fmt.Sprintf("%s child of %s@%d", n.Label, cur.Label, cur.Height))
+		cur = n
+	}
+}
+
+// opStaleOvertake extends a stale side branch (tip far below the best height) with enough work to
+// overtake the best chain: a reorganisation across (almost) the whole retained depth.
+func (m *M) opStaleOvertake(t *rapid.T) {
+	p := m.pools()
+	var stale []*model.Node
+	for _, n := range p.sideTips {
+		if n.Height < p.tip.Height-5000 {
+			stale = append(stale, n)
+		}
+	}
+	if len(stale) == 0 {
+		t.Skip("no stale fork")
+	}
+	cur := rapid.SampledFrom(stale).Draw(t, "staleTip")
+	run := rapid.IntRange(1, 3).Draw(t, "run")
+	m.k.Op("stale fork tip@%d overtakes run=%d", cur.Height, run)
+	m.k.Class("stale_fork_overtakes")
+	for i := 0; i < run; i++ {
+		raw := m.newHeader(cur.Hash, cur.Raw.Timestamp, 0x1b00ffff)
+		n := m.tree.AddChild(raw)
+		m.submit(raw, fmt.Sprintf("%s child of stale %s@%d", n.Label, cur.Label, cur.Height))
 		cur = n
 	}
 }
@@ -236,9 +268,15 @@ func (m *M) lite(inst *Inst) string {
 }
 
 // shrinkHeld applies the memory obligation after a prune at the current tip.
-func (m *M) shrinkHeld(inst *Inst) {
+func (m *M) shrinkHeld(inst *Inst) { m.shrinkHeldFrom(inst, 0) }
+
+// shrinkHeldFrom: Load takes its prune height from the first saved branch, which is the
+// implementation's genesis-rooted main branch; when the best chain was saved unconsolidated that
+// branch can be longer (and lighter) than the best chain, so the floor is measured from the higher
+// of the two tips.
+func (m *M) shrinkHeldFrom(inst *Inst, otherTipHeight int) {
 	tip := m.reported(inst)
-	base := model.AncestorAt(tip, max(0, tip.Height-m.effDepth()))
+	base := model.AncestorAt(tip, min(tip.Height, max(0, max(tip.Height, otherTipHeight)-m.effDepth())))
 	if base.Height > inst.floor {
 		inst.floor = base.Height
 	}
@@ -314,19 +352,36 @@ func (m *M) cleanAll() {
 // consolidated reports whether the best chain is the implementation's main branch.
 func (m *M) consolidated(inst *Inst) bool { return inst.mainTip == m.reported(inst) }
 
-// ensureConsolidated is a generator precondition of the small (hooked prune depth) regime: Save is
-// only issued when the best chain has been consolidated (Clean first otherwise). Saving an
-// unconsolidated best chain is exercised in the real-depth legs, where the relation between prune
-// depth, file size and fork depth is the production one.
+// ensureConsolidated used to insert a Clean before every Save in the hooked regime to work around
+// Save of an unconsolidated best chain writing a broken main header file; that was a genuine defect
+// (found by the real-depth leg, repaired). What remains is the span precondition at Save time: when
+// a mark made the best chain fall back, a live branch can run more than the (hooked, tiny) prune
+// depth beyond its fork from the best chain, which the shipped constants (144 << 10000) exclude;
+// then a Clean is issued first.
 func (m *M) ensureConsolidated() {
 	if m.f.RealDepth {
 		return
 	}
 	for _, inst := range m.insts {
-		if !m.consolidated(inst) {
-			m.k.Op("clean(auto before save)")
-			m.cleanAll()
-			return
+		tip := m.reported(inst)
+		if inst.mainTip != nil {
+			// the unconsolidated part of the best chain (above the implementation's main branch)
+			if lca := model.LCA(inst.mainTip, tip); tip.Height-lca.Height > m.depth {
+				m.k.Op("clean(auto: unconsolidated best chain runs more than the prune depth beyond the main branch)")
+				m.cleanAll()
+				return
+			}
+		}
+		for n := range inst.acc {
+			if len(acceptedChildren(inst, n)) > 0 {
+				continue
+			}
+			lca := model.LCA(n, tip)
+			if n.Height-lca.Height > m.depth || tip.Height-lca.Height > m.depth {
+				m.k.Op("clean(auto: a branch spans more than the prune depth beyond its fork)")
+				m.cleanAll()
+				return
+			}
 		}
 	}
 }
